@@ -38,10 +38,14 @@ ATTR = {
     ('variant', 'pos'): ('v_pos', 'int'), ('variant', 'ref'): ('v_ref_s', 'str'), ('variant', 'alt'): ('v_alt_s', 'str'),
     ('vstat', 'pos'): ('vpos', 'int'), ('vstat', 'ref_len'): ('vrl', 'int'), ('vstat', 'alt_len'): ('val', 'int'),
     ('po', 'pos'): ('fst', 'int'), ('po', 'offset'): ('snd', 'int'),
+    ('counts', 'too_short'): ('too_short', 'int'), ('counts', 'in_range'): ('in_range_n', 'int'), ('counts', 'too_long'): ('too_long', 'int'),
+    ('opt', 'oligo_min_length'): ('o_min', 'int'), ('opt', 'oligo_max_length'): ('o_max', 'int'),
     ('kgpo', 'ref_range'): ('kg_range', 'range'), ('kgpo', 'alt_length'): ('kg_alt_length', 'int'),
     ('kgpo', '_pos_offsets'): ('kg_pos_offsets', 'list:po'), ('kgpo', '_alt_offsets'): ('kg_alt_offsets', 'list:po'),
     ('kgpo', '_ref_del_mask'): ('kg_del', 'list:int'), ('kgpo', '_shift_mask'): ('kg_shift', 'list:int'), ('kgpo', '_alt_ins_mask'): ('kg_ins', 'list:int'),
 }
+# mutable records: methods that assign self.<field> return the new record (next to their value); fields re-read from the source
+MUT_RECORDS = {'OligoGenerationInfo': ('counts', 'mkCounts', [('too_short', 'too_short'), ('in_range', 'in_range_n'), ('too_long', 'too_long')])}
 # records whose field list (names, annotations, order) is re-read from the source before their attributes are translated
 RECORD_FIELDS = {'GenomicPositionOffsets': ('kgpo', [('ref_range', 'UIntRange'), ('alt_length', 'int'), ('_pos_offsets', 'list[PosOffset]'), ('_ref_del_mask', 'array'),
                                                     ('_shift_mask', 'array'), ('_alt_offsets', 'list[PosOffset]'), ('_alt_ins_mask', 'array')])}
@@ -50,9 +54,9 @@ CTOR = {'PosOffset': ('po', ['pos', 'offset'], ['int', 'int'])}
 # python annotation -> model type tag
 ANNOT = {'int': 'int', 'bool': 'bool', 'Strand': 'strand', 'Exon': 'exon', 'UIntRange': 'range', 'IntPatternBuilder': 'pt', 'CdsSeq': 'cds',
          'TargetonConfig': 'tcfg', 'str': 'str', 'str | None': 'ostr', 'VariantType': 'vtype', 'Variant': 'variant', 'VarStats': 'vstat',
-         'SearchType': 'search', 'SearchType | None': 'option:search', 'Callable[[int], bool]': 'fn:int->bool', 'list[VarStats]': 'list:vstat', 'Iterable[VarStats]': 'list:vstat', 'list[PosOffset]': 'list:po', 'array': 'list:int'}
+         'SearchType': 'search', 'SearchType | None': 'option:search', 'Options': 'opt', 'OligoGenerationInfo': 'counts', 'Callable[[int], bool]': 'fn:int->bool', 'list[VarStats]': 'list:vstat', 'Iterable[VarStats]': 'list:vstat', 'list[PosOffset]': 'list:po', 'array': 'list:int'}
 COQ_TYPE = {'int': 'Z', 'bool': 'bool', 'strand': 'strand', 'exon': 'exon', 'range': 'range', 'pt': 'pt', 'cds': 'cds_seq', 'tcfg': 'tcfg', 'unit': 'unit',
-            'str': 'string', 'ostr': '(option string)', 'vtype': 'vtype', 'strenum': 'string', 'variant': 'variant', 'vstat': 'vstat', 'po': '(Z * Z)', 'kgpo': 'kgpo', 'search': 'search'}
+            'str': 'string', 'ostr': '(option string)', 'vtype': 'vtype', 'strenum': 'string', 'variant': 'variant', 'vstat': 'vstat', 'po': '(Z * Z)', 'kgpo': 'kgpo', 'search': 'search', 'counts': 'counts', 'opt': 'opts'}
 
 
 def coq_type(t: str) -> str:
@@ -98,6 +102,8 @@ class Translator:
         self.wrap_some = False
         self.cur_self = None
         self.procedure = False
+        self.mutating = False                             # the method being translated assigns fields of self: it returns the new record
+        self.mut_ok: set[str] = set()                     # mutable record types whose field list was confirmed in the source
         self.consts: dict[str, tuple[str, str]] = {}     # module-level constants: name -> (coq term, type tag)
         self.str_enums: dict[str, dict[str, str]] = {}    # string Enum classes: class -> {member: value}
         self.nodes: dict[str, ast.FunctionDef] = {}       # translated functions by call key (for the format-only check)
@@ -522,6 +528,8 @@ class Translator:
             if isinstance(f, ast.Attribute):
                 v, t = self.expr(f.value, env, binds)
                 fn = self.fns.get(f'{t}.{f.attr}')
+                if fn is not None and getattr(fn, 'mutating', False):
+                    raise TransError(f'call of the mutating method {t}.{f.attr}')
                 if fn is not None:
                     formal = [p_ for p_ in fn.params if p_[0] != 'self']
                     args = self.bind_args(args, e.keywords, fn, formal, f'{t}.{f.attr}', env, binds)
@@ -660,6 +668,8 @@ class Translator:
                 lp['tails'].append([env[a][1] for a in lp['accs']])
                 tup = self.acc_tuple([env[a][0] for a in lp['accs']])
                 return (f'Ok (inl {tup})' if (lp['exit'] or lp.get('while')) else f'Ok {tup}'), 'acc'
+            if self.procedure and self.mutating:
+                return f"Ok {env['self'][0]}", self.cur_self
             if self.procedure:
                 return 'Ok tt', 'unit'
             raise TransError('a path without return')
@@ -682,6 +692,10 @@ class Translator:
                 return 'Ok None', 'option'
             binds = []
             v, t = self.expr(st.value, env, binds)
+            if self.mutating:
+                if self.wrap_some or t.startswith('option') or t.startswith('tuple:'):
+                    raise TransError('return type of a mutating method')
+                return self.wrap(binds, f"Ok ({env['self'][0]}, {v})"), f'tuple:{self.cur_self},{t}'
             return self.wrap(binds, f'Ok (Some {v})' if self.wrap_some else f'Ok {v}'), t
         r = self.raises(st)
         if r:
@@ -723,6 +737,28 @@ class Translator:
             return f'{self.fns[st.value.func.id].coq_name}', None       # a call that never returns: the rest is dead
         if isinstance(st, ast.AnnAssign) and isinstance(st.target, ast.Name) and st.value is not None:
             st = ast.Assign(targets=[st.target], value=st.value)
+        if isinstance(st, (ast.AugAssign, ast.Assign)) and self.mutating and isinstance(st.target if isinstance(st, ast.AugAssign) else st.targets[0], ast.Attribute):
+            tg = st.target if isinstance(st, ast.AugAssign) else st.targets[0]
+            rec = next(((tag, ctor, fl) for tag, ctor, fl in MUT_RECORDS.values() if tag == self.cur_self), None)
+            if rec is None or not (isinstance(tg.value, ast.Name) and tg.value.id == 'self') or tg.attr not in [f_ for f_, _ in rec[2]] \
+                    or (isinstance(st, ast.Assign) and len(st.targets) != 1) or (isinstance(st, ast.AugAssign) and not isinstance(st.op, (ast.Add, ast.Sub))):
+                raise TransError('assignment to an attribute')
+            binds = []
+            v, t = self.expr(st.value, env, binds)
+            if t != 'int':
+                raise TransError('field assignment of a non-integer')
+            cur = env['self'][0]
+            parts = []
+            for f_, acc in rec[2]:
+                old_ = f'({acc} {cur})'
+                if f_ == tg.attr:
+                    parts.append(v if isinstance(st, ast.Assign) else f'({old_} {"+" if isinstance(st.op, ast.Add) else "-"} {v})')
+                else:
+                    parts.append(old_)
+            env2 = dict(env)
+            env2['self'] = ('self', self.cur_self)
+            body, tb = self.block(rest, env2)
+            return self.wrap(binds, f'let self := ({rec[1]} ' + ' '.join(parts) + f') in {body}'), tb
         if isinstance(st, ast.AugAssign) and isinstance(st.target, ast.Name) and isinstance(st.op, (ast.Add, ast.Sub)):
             name = st.target.id
             if name not in env or env[name][1] != 'int':
@@ -1082,6 +1118,11 @@ class Translator:
                             or any(isinstance(st, ast.FunctionDef) for st in c.body) or not any('dataclass' in ast.unparse(d) for d in c.decorator_list):
                         raise TransError(f'dataclass {c.name}: fields {fields}')
                     self.ctors.add(c.name)
+                if isinstance(c, ast.ClassDef) and c.name in MUT_RECORDS:
+                    fields = [(st.target.id, ast.unparse(st.annotation)) for st in c.body if isinstance(st, ast.AnnAssign) and isinstance(st.target, ast.Name)]
+                    if fields != [(f_, 'int') for f_, _ in MUT_RECORDS[c.name][2]]:
+                        raise TransError(f'record {c.name}: fields {fields}')
+                    self.mut_ok.add(MUT_RECORDS[c.name][0])
                 if isinstance(c, ast.ClassDef) and c.name in RECORD_FIELDS:
                     fields = [(st.target.id, ast.unparse(st.annotation)) for st in c.body if isinstance(st, ast.AnnAssign) and isinstance(st.target, ast.Name)]
                     if fields != RECORD_FIELDS[c.name][1] or not any('dataclass' in ast.unparse(d) for d in c.decorator_list):
@@ -1165,6 +1206,10 @@ class Translator:
         if node.args.kwonlyargs or node.args.vararg or node.args.kwarg:
             raise TransError(f'{key}: parameter kinds')
         self.procedure = node.returns is not None and ast.unparse(node.returns) == 'None'
+        self.mutating = any(isinstance(n_, (ast.Assign, ast.AugAssign)) and any(isinstance(tg_, ast.Attribute) and isinstance(tg_.value, ast.Name) and tg_.value.id == 'self'
+                                                                               for tg_ in (n_.targets if isinstance(n_, ast.Assign) else [n_.target])) for n_ in ast.walk(node))
+        if self.mutating and self_type not in self.mut_ok:
+            raise TransError(f'{key}: assigns fields of a record that is not known as mutable')
         self.nodes[key] = node
         body, ret = self.block(node.body, env)
         if ret is None and node.returns is not None and ast.unparse(node.returns) == 'NoReturn':
@@ -1186,6 +1231,7 @@ class Translator:
             finally:
                 self.wrap_some = False
         self.fns[key] = Fn(coq_name, params, ret, defaults)
+        self.fns[key].mutating = self.mutating
         sig = ' '.join(f'({cname(n)} : {coq_type(t)})' for n, t in params)
         self.out.append(f'Definition {coq_name} {sig} : result {self.coq_ret(ret)} :=\n  {body}.\n')
 
